@@ -8,6 +8,7 @@ package c19
 import (
 	"encoding/json"
 	"os"
+	"runtime/debug"
 	"strings"
 	"testing"
 
@@ -25,6 +26,9 @@ const rule = "cases = rapid-drawn (engine config with small memtables, key pool 
 
 func TestMain(m *testing.M) {
 	ev.Silence()
+	// soft limit: the rare 10 MiB values are copied many times on their way
+	// through transport, log, memtable and table files
+	debug.SetMemoryLimit(384 << 20)
 	rec := ev.Init("C19", rule)
 	code := m.Run()
 	rec.Flush(true)
